@@ -613,6 +613,17 @@ public:
 	iterator begin() { return m.begin(); }
 	const_iterator begin() const { return m.begin(); }
 	size_t size() const { return m.size(); }
+	// the rest of the std map interface a dispatcher might use (the pinned library uses none of it): removals and insertions are writes
+	iterator erase(iterator it) { wr("map.erase"); return m.erase(it); }
+	iterator erase(const_iterator it) { wr("map.erase"); return m.erase(it); }
+	size_t erase(const key_type & k) { wr("map.erase"); return m.erase(k); }
+	void clear() { wr("map.clear"); m.clear(); }
+	bool empty() const { rd("map.empty"); return m.empty(); }
+	size_t count(const key_type & k) const { rd("map.count"); return m.count(k); }
+	template <typename ...A> std::pair<iterator, bool> emplace(A && ...a) { wr("map.emplace"); return m.emplace(std::forward<A>(a)...); }
+	template <typename P> std::pair<iterator, bool> insert(P && v) { wr("map.insert"); return m.insert(std::forward<P>(v)); }
+	mapped_type & at(const key_type & k) { rd("map.at"); return m.at(k); }
+	const mapped_type & at(const key_type & k) const { rd("map.at"); return m.at(k); }
 	friend void swap(VMapT & a, VMapT & b) noexcept { using std::swap; swap(a.m, b.m); }
 	const Base & raw() const { return m; }
 };
